@@ -49,6 +49,15 @@ CHECKS = {
          "error::DecodeError warning regimes. Only DecodeError may escape, decoding must terminate (10 s guard), truncated static PDUs must be rejected.",
     note="Trusted: Hypothesis, atheris/libFuzzer (thorough only), wall-clock guard for non-termination (generous, confirmed before reporting).",
     design="3/C05"),
+ "C06": dict(
+    technique="three-valued reference dispatcher (MUST / MAY / MUST-NOT) over Hypothesis-generated service sets; exhaustive pairs/triples of services x short messages",
+    text="Bounded exploration: generated layers (1..5 services, shared/nested/empty constant prefixes, 8/16-bit and sub-byte constants in both "
+         "byte orders, matching-request parameters, NRC-CONST alternatives, global negative responses) x own encodings of every coding object, "
+         "all byte strings up to length 3 over a small alphabet and random strings; DiagLayer.decode must report every MUST service with "
+         "reference-equal values, no MUST-NOT service, raise DecodeError only if MUST and MAY are empty; decode_response and service_groups clauses. "
+         "Complete enumeration of all pairs (quick) / triples (thorough) of request-only services against all short messages.",
+    note="Trusted: reference encoder/dispatcher vlib/models/dispatch.py (no odxtools import), Hypothesis. Undecided situations (trailing bytes, half-constant first byte) are in the MAY class and never asserted. Known finding C06-empty-prefix-never-found excluded by predicate.",
+    design="3/C06"),
  "C08": dict(
     technique="Hypothesis-generated descriptions; static metadata cross-checked against actual encodings, omission and alternative-value experiments per parameter",
     text="Bounded exploration: for generated descriptions x accepted assignments (a) get_static_bit_length of message, parameters and "
@@ -57,6 +66,15 @@ CHECKS = {
          "for which two different accepted values change the PDU; constants/reserved/matching-request never settable.",
     note="Trusted: Hypothesis, the generator's injective DOPs. Known finding C08-condensed-mask-static-length is excluded by a counterfactual predicate.",
     design="3/C08"),
+ "C18": dict(
+    technique="metamorphic testing: one generated edit per database pair, expected classification from an independent XML-level model; complete enumeration of single edits of somersault.pdx",
+    text="Bounded exploration: generated databases (1..3 layers, inheritance, services sharing request prefixes) and the shipped somersault.pdx x one "
+         "edit (add/delete/rename service, change byte position / bit length / coded value / semantic / data type / linked DOP of one parameter) or "
+         "identity; compare_databases / compare_diagnostic_layers must list exactly the edited service in exactly the list of its kind, "
+         "self-comparison must be empty, printed tables contain the reported services, print_dl_metrics rows equal the model's counts of services, "
+         "DOPs and communication parameters.",
+    note="Trusted: the XML-level model vlib/models/clidb.py, Hypothesis; a recorder replaces rich_print (harness side). Distinct request prefixes per layer are an envelope condition.",
+    design="3/C18"),
  "C16": dict(
     technique="Hypothesis RuleBasedStateMachine against a list model + exhaustive enumeration of short histories",
     text="Bounded exploration: random long histories (rule-based state machine, model = Python list of the same objects, "
